@@ -17,6 +17,7 @@
 From Coq Require Import List Bool Arith NArith ZArith String Lia.
 Import ListNotations.
 From STFS Require Import Skel Sound Events Check Locks Atomic Entries Skeleton Conc.
+From STFS Require Consts.
 From STFS Require Str Db Tape Index Ops Fs Diff.
 Open Scope string_scope.
 
@@ -76,6 +77,12 @@ Proof. vm_compute. reflexivity. Qed.
 Theorem C11_single_section_exact :
   filter (fun f => negb (check table prims_fixed astep 40 40 a_exit_single 0%N f)) fs_methods = [].
 Proof. vm_compute. reflexivity. Qed.
+
+(* the look-ups that Create and SymlinkIfPossible make BEFORE taking the lock run next to another caller's locked section: they go
+   through the index store, whose connection pool is limited to ONE connection in the regenerated constants (Gen/Consts.v, from
+   internal/persisters/sqlite.go), so such a look-up queues behind the other caller's statement instead of meeting a locked database *)
+Theorem C11_index_store_single_connection : Consts.index_store_pool = [("SetMaxOpenConns", "1")].
+Proof. reflexivity. Qed.
 
 Example C11_monitors_nonvacuous :
   (* a look-up between two locked sections, an index action after the unlock, a lock taken against the order *)
